@@ -59,33 +59,33 @@ only runs under `separate_complex_types` (excluded by the property); `_add_type_
 caller created; `create_message` writes `__comments__` only under `add_comments` (excluded); `get_versioned_properties`
 prunes the *schema* it was handed, never a Mapfile dictionary (C09 covers its sharing); `update` changes its first argument
 by contract (C18); `dict_move_to_end` is the primitive behind the first.  The remaining entries are the call edges that
-lead there.  A new item assignment, deletion, mutating method call or call edge on a caller-owned object — such as quoting
+lead there (their multiplicity is not recorded: how often a helper is called is layout).  A new item assignment, deletion, mutating method call or call edge on a caller-owned object — such as quoting
 the items of a list value in place inside `format_value` — changes the regenerated list and breaks this obligation. -/
 def auditedMutations : List (Str × Str × Str × Nat) := [
-  (s%"pprint", s%"PrettyPrinter.separate_complex", s%"call:dict_move_to_end", 1),
-  (s%"pprint", s%"PrettyPrinter.pprint", s%"call:_format", 1),
+  (s%"pprint", s%"PrettyPrinter.separate_complex", s%"call:dict_move_to_end", 0),
+  (s%"pprint", s%"PrettyPrinter.pprint", s%"call:_format", 0),
   (s%"pprint", s%"PrettyPrinter._add_type_comment", s%".append", 1),
-  (s%"pprint", s%"PrettyPrinter._format", s%"call:_format", 2),
-  (s%"pprint", s%"PrettyPrinter._format", s%"call:separate_complex", 1),
-  (s%"validator", s%"Validator.get_versioned_schema", s%"call:get_versioned_properties", 1),
-  (s%"validator", s%"Validator.get_versioned_properties", s%"call:get_versioned_properties", 2),
+  (s%"pprint", s%"PrettyPrinter._format", s%"call:_format", 0),
+  (s%"pprint", s%"PrettyPrinter._format", s%"call:separate_complex", 0),
+  (s%"validator", s%"Validator.get_versioned_schema", s%"call:get_versioned_properties", 0),
+  (s%"validator", s%"Validator.get_versioned_properties", s%"call:get_versioned_properties", 0),
   (s%"validator", s%"Validator.get_versioned_properties", s%"delitem", 1),
   (s%"validator", s%"Validator.get_versioned_properties", s%"setitem", 1),
   (s%"validator", s%"Validator.create_message", s%"setitem", 2),
-  (s%"validator", s%"Validator.get_error_messages", s%"call:create_message", 1),
-  (s%"validator", s%"Validator._get_errors", s%"call:get_error_messages", 1),
-  (s%"validator", s%"Validator.validate", s%"call:_get_errors", 2),
-  (s%"validator", s%"Validator.validate", s%"call:get_versioned_schema", 1),
-  (s%"dictutils", s%"update", s%"call:update", 2),
+  (s%"validator", s%"Validator.get_error_messages", s%"call:create_message", 0),
+  (s%"validator", s%"Validator._get_errors", s%"call:get_error_messages", 0),
+  (s%"validator", s%"Validator.validate", s%"call:_get_errors", 0),
+  (s%"validator", s%"Validator.validate", s%"call:get_versioned_schema", 0),
+  (s%"dictutils", s%"update", s%"call:update", 0),
   (s%"dictutils", s%"update", s%"delitem", 2),
   (s%"dictutils", s%"update", s%"setitem", 3),
   (s%"dictutils", s%"dict_move_to_end", s%".move_to_end", 1),
-  (s%"utils", s%"dump", s%"call:_pprint", 1),
-  (s%"utils", s%"save", s%"call:_pprint", 1),
-  (s%"utils", s%"dumps", s%"call:_pprint", 1),
-  (s%"utils", s%"validate", s%"call:validate", 1),
-  (s%"utils", s%"_pprint", s%"call:pprint", 1),
-  (s%"utils", s%"create", s%"call:get_versioned_schema", 1)]
+  (s%"utils", s%"dump", s%"call:_pprint", 0),
+  (s%"utils", s%"save", s%"call:_pprint", 0),
+  (s%"utils", s%"dumps", s%"call:_pprint", 0),
+  (s%"utils", s%"validate", s%"call:validate", 0),
+  (s%"utils", s%"_pprint", s%"call:pprint", 0),
+  (s%"utils", s%"create", s%"call:get_versioned_schema", 0)]
 
 /-- **C12_argument_mutations_audited** — the regenerated inventory is exactly the audited one -/
 theorem C12_argument_mutations_audited : Gen.argMutations = auditedMutations := by decide +kernel
